@@ -1,6 +1,7 @@
 import LyModel.Path.Eval
 import LyModel.Path.Print
 import LyModel.Val.Model
+import LyModel.Generated.ValInst
 /-!
 # `instance-identifier` (`src/plugins_types/instanceid.c`)
 
@@ -16,13 +17,19 @@ of which only *reject more*:
   * `LY_PATH_PREFIX_STRICT_INHERIT`: a node prefix equal to the prefix written last ("Duplicate prefix") and any prefix on a
     predicate key ("Redundant prefix") are syntax errors (`strictSteps`).
 The compilation is `Path.compileSteps single := true` (JSON format: a node without prefix belongs to the module of the
-previous node; `LY_PATH_TARGET_SINGLE`).  Scope: data nodes only (no rpc / action / notification in the schema, the
-`limit_access_tree` test never fires), keys and leaf-lists of type `string` (predicate values are stored through the string
-plug-in: `Val.checkChars`, canonical = the bytes).
+previous node; `LY_PATH_TARGET_SINGLE`).  `ly_path_compile_predicate` stores every predicate value through the type plug-in of
+the key / leaf-list (`lyd_value_store`, `LYD_HINT_DATA`) and the canonical string prints the stored value in its canonical form:
+`typeSteps` does that on the compiled path with the types of a typed schema (`TNode`: the schema of `Path` plus the type of
+every leaf / leaf-list, the types being those of `Val/Model.lean`: integers, decimal64, boolean, enumeration, bits, string).
+Scope: data nodes only (no rpc / action / notification, the `limit_access_tree` test never fires); a predicate on a node whose
+type is not one of the modelled ones is outside the model.
 
-A key predicate with a variable reference (`[k=$v]`) passes the parser and the compiler (`LY_PATH_PREDTYPE_LIST_VAR`) and then
-makes `instanceid_path2str` fail with `LOGINT` / `LY_EINT`: kind `Internal` (`devar` compiles such a predicate as if an
-empty literal had been written, which passes every other test of the compiler that a variable reference passes).
+Two switches read from the source (`Generated/ValInst.lean`), each with the pinned and the repaired behaviour:
+  * `varRefused` (F421): a key predicate with a variable reference (`[k=$v]`) passes the parser and the compiler
+    (`LY_PATH_PREDTYPE_LIST_VAR`) and then makes `instanceid_path2str` fail with `LOGINT` / `LY_EINT`: kind `Internal` (`devar`
+    compiles such a predicate as if an empty literal had been written, which passes every other test of the compiler that a
+    variable reference passes; the value of a variable is not stored).  Repaired: a syntax error.
+  * `keysSchema` (F422): the key predicates are printed in the order they were written; repaired: in the order of the keys.
 Core Lean only.
 -/
 namespace LyModel.Val.InstId
@@ -41,6 +48,34 @@ inductive IErr where
 
 def IErr.name : IErr → String
   | .Syntax => "Syntax" | .Semantic => "Semantic" | .Internal => "Internal" | .Hint => "Hint"
+
+/-! ### typed schema -/
+
+/-- schema node with the type of a leaf / leaf-list (`none`: not a terminal node, or a type outside the model) -/
+inductive TNode where
+  | mk (mod name : Bytes) (kind : Kind) (ty : Option Ty) (children : List TNode)
+
+namespace TNode
+def mod : TNode → Bytes | mk m _ _ _ _ => m
+def name : TNode → Bytes | mk _ n _ _ _ => n
+def kind : TNode → Kind | mk _ _ k _ _ => k
+def ty : TNode → Option Ty | mk _ _ _ t _ => t
+def children : TNode → List TNode | mk _ _ _ _ c => c
+end TNode
+
+mutual
+/-- the schema as `Path` sees it -/
+def TNode.toS : TNode → SNode
+  | .mk m n k _ ch => .mk m n k (TNode.toSs ch)
+def TNode.toSs : List TNode → List SNode
+  | [] => []
+  | t :: r => TNode.toS t :: TNode.toSs r
+end
+
+def findT (sibs : List TNode) (mod name : Bytes) : Option TNode :=
+  sibs.find? (fun t => t.mod == mod && t.name == name)
+
+/-! ### parsing -/
 
 /-- `LY_PATH_PREFIX_STRICT_INHERIT` in `ly_path_check_predicate`: a key NameTest with a prefix -/
 def keyHasPrefix : Pred → Bool
@@ -81,32 +116,125 @@ def parseInst (s : Bytes) : Option (List Step) :=
   | some (true, steps) => if strictSteps none steps then some steps else none
   | _ => none
 
-/-- the predicate values are stored through the type plug-in of the key / leaf-list: `string` -/
-def predValuesOk : CPred → Bool
-  | .keys kv => kv.all fun p => checkChars (p.2.length + 1) p.2
-  | .dot v => checkChars (v.length + 1) v
-  | _ => true
+/-! ### predicate values -/
 
-/-- `lyplg_type_store_instanceid` without the hints test: the stored value is the compiled path -/
-def storeInstId (schema : List SNode) (s : Bytes) : Except IErr (List CStep) :=
+/-- `lyd_value_store(…, type, val, val_len, …, LYD_HINT_DATA, …)` + the canonical value the printer asks for -/
+def canonVal (ty : Option Ty) (v : Bytes) : Except IErr Bytes :=
+  match ty with
+  | none => .error .Semantic
+  | some t =>
+    match Val.store t Generated.LYD_HINT_DATA v with
+    | .error _ => .error .Semantic
+    | .ok x => .ok (Val.canon t x)
+
+/-- the key leaf `k` of the list `t` (keys carry no prefix: they belong to the module of the list) -/
+def keyType (t : TNode) (k : Bytes) : Option Ty :=
+  match t.children.find? (fun c => c.mod == t.mod && c.name == k) with
+  | some c => c.ty
+  | none => none
+
+def typeKeys (t : TNode) : List (Bytes × Bytes) → Except IErr (List (Bytes × Bytes))
+  | [] => .ok []
+  | (k, v) :: r =>
+    match canonVal (keyType t k) v with
+    | .error e => .error e
+    | .ok c =>
+      match typeKeys t r with
+      | .error e => .error e
+      | .ok cr => .ok ((k, c) :: cr)
+
+def typePred (t : TNode) : CPred → Except IErr CPred
+  | .keys kv =>
+    match typeKeys t kv with
+    | .error e => .error e
+    | .ok ckv => .ok (.keys ckv)
+  | .dot v =>
+    match canonVal t.ty v with
+    | .error e => .error e
+    | .ok c => .ok (.dot c)
+  | p => .ok p
+
+/-- the value stores of `ly_path_compile_predicate` along a compiled path: every predicate value replaced by the canonical
+    form of the value its type stores -/
+def typeSteps : List TNode → List CStep → Except IErr (List CStep)
+  | _, [] => .ok []
+  | sibs, c :: r =>
+    match findT sibs c.mod c.name with
+    | none => .error .Semantic
+    | some t =>
+      match typePred t c.pred with
+      | .error e => .error e
+      | .ok p =>
+        match typeSteps t.children r with
+        | .error e => .error e
+        | .ok cr => .ok ({ c with pred := p } :: cr)
+
+/-! ### the same value stores when some key values are variable references (pinned F421 only: the verdict is all that matters,
+the value of a variable is not stored) -/
+
+def varFlags : Pred → List Bool
+  | .keys kv => kv.map (fun p => PVal.isVar p.2)
+  | _ => []
+
+def typeKeysV (t : TNode) : List Bool → List (Bytes × Bytes) → Except IErr Unit
+  | _, [] => .ok ()
+  | fl, (k, v) :: r =>
+    if fl.headD false then typeKeysV t fl.tail r
+    else
+      match canonVal (keyType t k) v with
+      | .error e => .error e
+      | .ok _ => typeKeysV t fl.tail r
+
+def typePredV (t : TNode) (fl : List Bool) : CPred → Except IErr Unit
+  | .keys kv => typeKeysV t fl kv
+  | .dot v =>
+    match canonVal t.ty v with
+    | .error e => .error e
+    | .ok _ => .ok ()
+  | _ => .ok ()
+
+def typeStepsV : List TNode → List Step → List CStep → Except IErr Unit
+  | _, _, [] => .ok ()
+  | sibs, sts, c :: r =>
+    match findT sibs c.mod c.name with
+    | none => .error .Semantic
+    | some t =>
+      match typePredV t (varFlags ((sts.head?.map (·.pred)).getD .none)) c.pred with
+      | .error e => .error e
+      | .ok _ => typeStepsV t.children sts.tail r
+
+/-! ### store -/
+
+/-- `lyplg_type_store_instanceid` without the hints test: the stored value is the compiled path (predicate values in their
+    canonical form) -/
+def storeInstIdWith (varRefused : Bool) (schema : List TNode) (s : Bytes) : Except IErr (List CStep) :=
   match parseInst s with
   | none => .error .Syntax
   | some steps =>
-    match compileSteps true schema none none (devar steps) with
-    | .error _ => .error .Semantic
-    | .ok cs =>
-      if !cs.all (fun c => predValuesOk c.pred) then .error .Semantic
-      else if steps.any (fun st => predHasVar st.pred) then .error .Internal
-      else .ok cs
+    if varRefused && steps.any (fun st => predHasVar st.pred) then .error .Syntax
+    else
+      match compileSteps true (TNode.toSs schema) none none (devar steps) with
+      | .error _ => .error .Semantic
+      | .ok cs =>
+        if steps.any (fun st => predHasVar st.pred) then
+          match typeStepsV schema steps cs with
+          | .error e => .error e
+          | .ok _ => .error .Internal
+        else typeSteps schema cs
+
+def storeInstId (schema : List TNode) (s : Bytes) : Except IErr (List CStep) :=
+  storeInstIdWith Generated.instVarRefused schema s
 
 /-- the store callback: `lyplg_type_check_hints` first -/
-def store (schema : List SNode) (hints : Nat) (s : Bytes) : Except IErr (List CStep) :=
+def store (schema : List TNode) (hints : Nat) (s : Bytes) : Except IErr (List CStep) :=
   match checkHints hints "inst" with
   | none => .error .Hint
   | some _ => storeInstId schema s
 
+/-! ### canonical form -/
+
 /-- `quot = '\''; if (strchr(strval, quot)) quot = '"';` -/
-def quoteOf (v : Bytes) : UInt8 := if v.contains 39 then 34 else 39
+def quoteOf (v : Bytes) : UInt8 := if v.contains Generated.instQuoteDefault then Generated.instQuoteAlt else Generated.instQuoteDefault
 
 /-- `[%s=%c%s%c]` -/
 def canonKey (k v : Bytes) : Bytes := [91] ++ k ++ [61, quoteOf v] ++ v ++ [quoteOf v, 93]
@@ -115,10 +243,15 @@ def canonKeys : List (Bytes × Bytes) → Bytes
   | [] => []
   | (k, v) :: r => canonKey k v ++ canonKeys r
 
+/-- the key predicates in the order they are printed: as written, or (repaired) the predicate of every key in schema order
+    (`instanceid_key_predicate`) -/
+def orderKeys (keysSchema : Bool) (keyNames : List Bytes) (kv : List (Bytes × Bytes)) : List (Bytes × Bytes) :=
+  if keysSchema then keyNames.filterMap (fun k => kv.find? (fun p => p.1 == k)) else kv
+
 /-- the predicates of one segment, `inherit_prefix = 1` -/
-def canonPred : CPred → Bytes
+def canonPredWith (keysSchema : Bool) (keyNames : List Bytes) : CPred → Bytes
   | .none => []
-  | .keys kv => canonKeys kv
+  | .keys kv => canonKeys (orderKeys keysSchema keyNames kv)
   | .dot v => [91, 46, 61, quoteOf v] ++ v ++ [quoteOf v, 93]
   | .pos n => [91] ++ toDec n ++ [93]
 
@@ -127,15 +260,19 @@ def canonName (prev : Option Bytes) (c : CStep) : Bytes :=
   if prev == some c.mod then [47] ++ c.name else [47] ++ c.mod ++ [58] ++ c.name
 
 /-- the `LY_ARRAY_FOR(path, u)` loop of `instanceid_path2str`, formats CANON / JSON / LYB -/
-def canonSteps : Option Bytes → List CStep → Bytes
+def canonStepsWith (keysSchema : Bool) : Option Bytes → List CStep → Bytes
   | _, [] => []
-  | prev, c :: r => canonName prev c ++ canonPred c.pred ++ canonSteps (some c.mod) r
+  | prev, c :: r => canonName prev c ++ canonPredWith keysSchema c.keyNames c.pred ++ canonStepsWith keysSchema (some c.mod) r
 
 /-- `instanceid_path2str(path, LY_VALUE_JSON, NULL, &canon)` -/
-def canonInstId (cs : List CStep) : Bytes := canonSteps none cs
+def canonInstIdWith (keysSchema : Bool) (cs : List CStep) : Bytes := canonStepsWith keysSchema none cs
+
+def canonInstId (cs : List CStep) : Bytes := canonInstIdWith Generated.instKeysSchemaOrder cs
 
 /-- `lyplg_type_compare_simple`: the canonical strings are the same dictionary entry -/
-def cmpEqInstId (a b : List CStep) : Bool := canonInstId a == canonInstId b
+def cmpEqInstIdWith (keysSchema : Bool) (a b : List CStep) : Bool := canonInstIdWith keysSchema a == canonInstIdWith keysSchema b
+
+def cmpEqInstId (a b : List CStep) : Bool := cmpEqInstIdWith Generated.instKeysSchemaOrder a b
 
 /-- `lyplg_type_sort_simple`: `strcmp` of the canonical strings -/
 def sortInstId (a b : List CStep) : Int := strcmp (canonInstId a) (canonInstId b)
@@ -144,6 +281,6 @@ def sortInstId (a b : List CStep) : Int := strcmp (canonInstId a) (canonInstId b
 def lybInstId (cs : List CStep) : Bytes := canonInstId cs
 
 /-- the store callback with `LY_VALUE_LYB`: "value in LYB format is the same as in JSON format" -/
-def unlybInstId (schema : List SNode) (b : Bytes) : Except IErr (List CStep) := storeInstId schema b
+def unlybInstId (schema : List TNode) (b : Bytes) : Except IErr (List CStep) := storeInstId schema b
 
 end LyModel.Val.InstId
